@@ -564,7 +564,22 @@ class Interp:
             return
         if ft.kind in ("any", "func", "heap"):
             return
+        if ft.kind == "ref" and ft.cls and (self.classes.get(ft.cls) or {}).get("dictlike"):
+            # a plain dict stored where a modelled options dict is expected: {} is the distinguished empty options value
+            def conv(x):
+                if isinstance(x, HeapRef) and st.obj(x).kind == "dict" and not st.obj(x).items:
+                    return self.empty_dictlike(st, ft.cls)
+                return x
+            val = Union([(c, conv(x)) for c, x in val.alts]) if isinstance(val, Union) else conv(val)
         st.assume(self.field_fn(f, ft)(r) == self.to_z(st, val, ft).e)
+
+    def empty_dictlike(self, st, cls):
+        e = z3.Const("empty." + cls, Ref)
+        for fld, ts in (self.classes.get(cls) or {}).get("fields", {}).items():
+            if ts.startswith("opt["):
+                st.axioms.append(smt.ufunc(f"fld.{fld}.isnone", Ref, Bool)(e))
+        st.axioms.append(smt.cls_of(e) == z3.StringVal(cls))
+        return Z(T("ref", (), cls), e)
 
     def field_fn(self, f: str, ft: T):
         return smt.ufunc(f"fld.{f}.{ft.kind if ft.kind != 'seq' else 'seq_' + ft.args[0].kind}", Ref, ft.z3sort())
@@ -587,7 +602,7 @@ class Interp:
             if k == "ref":
                 return smt.dyn_ctor("DRef")(v.e)
             if k == "str":
-                raise OutsideSubset("z3 string as dyn")
+                return smt.dyn_ctor("DName")(v.e)
         if v is NONE:
             return smt.dyn_ctor("DNone")
         if isinstance(v, Union):
